@@ -31,6 +31,8 @@ INTERVALS = [
     # length exactly 1 away from the origin (the scaling of the reference rule is the identity, the shift is not)
     (2.0, 3.0),
     (-4.0, -3.0),
+    # an end point that is exactly zero on the right (zero is a special value in argument handling)
+    (-1.0, 0.0),
 ]
 MMAX = {'quick': 8, 'thorough': 16}
 LEFT_TYPES = ('LOBATTO', 'RADAU-LEFT')
